@@ -2,13 +2,13 @@ SPECIFICATION Spec
 CONSTANTS
   Msgs = {"a", "b", "c"}
   TL = 1
-  ML = 2
+  ML = 0
   MaxRetries = 1
   Repaired = TRUE
-  FinishReturnsHeld = FALSE
+  Prefetch = 2
+  FinishMode = "local"
 INVARIANT Conservation
 INVARIANT RunningBound
 INVARIANT StartedBound
-INVARIANT AtReturn
 INVARIANT TriedBound
 CONSTRAINT Bounded
